@@ -26,6 +26,9 @@ RULE = ('generated (m>=2,t,PRSS,l) x integer programs with top-level barriers, m
 ASSUMPTIONS = ['MPyC coroutine tasks = tasks created through asyncoro.Task (the only place mpc_coro creates tasks)']
 
 
+TIMEOUT_INCONCLUSIVE = True  # hangs are decided by quiescence in the simulator, not by the wall clock
+
+
 def budget(tier):
     return dict(shards=16, examples=50 if tier == 'quick' else 400)
 
